@@ -156,7 +156,7 @@ NUMBERS = [Fraction(0), Fraction(1), Fraction(42), Fraction(1, 2), Fraction(3, 8
            Fraction(3, 10 ** 6), Fraction(7, 10 ** 5), Fraction(2 ** 70), Fraction(1, 2 ** 40)]
 INFIX = ["(+)", "(-)", "(*)", "(/)", "(%)", "string/concat", "(@)", "(&)", "(<)", "(<=)", "(>)", "(>=)", "(==)"]
 FORMATS = ["Nickel", "Json", "Yaml", "Toml", "Text"]
-PATHS = ["foo.ncl", "a/b.json", "c.yaml", "d.yml", "e.toml", "f.txt", "noext", "dir.d/file", "x.ncl.bak", ".hidden",
+PATHS = ["foo.ncl", "a/b.json", "c.yaml", "d.yml", "e.toml", "f.txt", "noext", "dir.d/file", "x.ncl.bak", ".hidden", "d/.yaml", "a.json/", "b.toml/.", "up/..", "..json", "t.", ".a.yml",
          "sp ace.ncl", "q\"uote.json", "back\\slash.ncl"]
 
 
@@ -256,6 +256,14 @@ class Gen:
         return ["app", ["var", S("f")], ["var", S("x")]]
 
     def typ(self, d, bound):
+        """`bound` is the list of enclosing forall binders, innermost first, as (name, kind) with
+        kind in ty / erows / rrows: the parser rejects a bound variable used at two kinds
+        (TypeVariableKindMismatch), so each binder is given one kind when it is introduced"""
+        def kind_of(x):
+            for (n, k) in bound:
+                if n == x:
+                    return k
+            return None
         c = self.r.below(100)
         if d <= 0:
             c = c % 40
@@ -263,7 +271,12 @@ class Gen:
             return self.pick(["dyn", "number", "bool", "string"])
         if c < 16:
             x = self.pick(TYVARS + VARS[:6])
-            return ["tvar", S(x)] if x in bound else ["contract", ["var", S(x)]]
+            k = kind_of(x)
+            if k is None:
+                return ["contract", ["var", S(x)]]
+            if k == "ty":
+                return ["tvar", S(x)]
+            return self.pick(["dyn", "number", "bool", "string"])
         if c < 30:
             return ["contract", self.contract_term(d - 1)]
         if c < 40:
@@ -275,14 +288,15 @@ class Gen:
             return ["arrow", self.typ(d - 1, bound), self.typ(d - 1, bound)]
         if c < 66:
             v = self.pick(TYVARS)
-            return ["forall", S(v), self.typ(d - 1, [v] + bound)]
+            k = self.r.weighted([("ty", 3), ("erows", 1), ("rrows", 1)])
+            return ["forall", S(v), self.typ(d - 1, [(v, k)] + bound)]
         if c < 74:
             rows = []
             for t in self.r.shuffle(TAGS)[: self.r.range(0, 3)]:
                 rows.append(["erow", S(t), some(self.typ(d - 1, bound)) if self.chance(1, 2) else NONE])
             tail = NONE
-            tv = [b for b in bound]
-            if tv and self.chance(1, 3):
+            tv = sorted(set(n for (n, _) in bound if kind_of(n) == "erows"))
+            if tv and self.chance(2, 3):
                 tail = some(S(self.pick(tv)))
             return ["enumt", rows, tail]
         if c < 84:
@@ -290,11 +304,12 @@ class Gen:
             for f in self.r.shuffle(FIELDS)[: self.r.range(0, 3)]:
                 rows.append(["rrow", S(f), self.typ(d - 1, bound)])
             tail = "closed"
+            tv = sorted(set(n for (n, _) in bound if kind_of(n) == "rrows"))
             k = self.r.below(6)
             if k == 0:
                 tail = "taildyn"
-            elif k == 1 and bound:
-                tail = ["tailvar", S(self.pick(bound))]
+            elif k <= 3 and tv:
+                tail = ["tailvar", S(self.pick(tv))]
             return ["rect", rows, tail]
         if c < 92:
             if self.chance(1, 2):
@@ -431,6 +446,9 @@ class Gen:
             sp, name, ar = self.pick(self.primops)
             return ["op", S(name)] + [self.term(d - 1) for _ in range(ar)]
         if c < 68:
+            if self.chance(1, 12):      # what `(.)` parses to
+                return ["fun", [["pat", NONE, ["any", S("x")]], ["pat", NONE, ["any", S("y")]]],
+                        ["op", S("record/get"), ["var", S("y")], ["var", S("x")]]]
             return ["fun", [self.pat(d - 1) for _ in range(self.r.range(1, 3))], self.term(d - 1)]
         if c < 73:
             names = self.r.shuffle(PVARS)
